@@ -43,6 +43,10 @@ def run(ctx: Ctx):
     from . import c04
 
     c04.gather_not_weights(ctx)
+    from . import c05
+
+    # the total a share is taken over is the total of the BASE values: never a reduction of an assembled (display) vector
+    c05.display_reductions(ctx, only=lambda where: "share" in where.lower())
 
 
 def totals_last(ctx: Ctx):
@@ -81,7 +85,9 @@ def grid(ctx: Ctx, cname: str, axis):
         return
     for i in (0, 1):
         for j in (0, 1):
-            e = g[i][j]
+            from ..symex import fold_consts
+
+            e = fold_consts(g[i][j])  # a shared base class selected by a class constant (`_share_axis`), specialised per class
             where = f"{where0}[{i}][{j}]"
             ctx.count("share-of-sum block sites")
             # numerator / denominator structure: S[i][j] (maybe .T) / nansum(S[a][b], axis=k) (maybe .T)
